@@ -1,6 +1,7 @@
 import Sylvia.Extracted.Tables
 import Sylvia.Lemmas.Tables
 import Sylvia.Util.Bytes
+import Sylvia.Model.Strip
 /-! Obligations over the tables regenerated from /repo's current sources. Each is a closed decidable
 statement; a source edit that changes a table makes the corresponding `decide` fail. -/
 namespace Obl
@@ -56,6 +57,14 @@ theorem accessor_documented : ∀ k ∈ Kind.all,
 theorem result_and_leg : resultIsBinary.all (fun r => r.2 == (r.1 == .query)) = true ∧
     (∀ k ∈ Kind.all, lookup dispatchLeg k = some (match k with
       | .exec | .sudo => 0 | .query => 1 | _ => 2)) := by decide
+
+/-- `sv::msg` is itself recognised as a framework attribute (needed for idempotence of stripping) -/
+theorem msg_is_framework : ∀ a, Strip.isMsgAttr a = true → Strip.isFramework a = true := by
+  intro a h
+  have hp : a.path = ["sv", "msg"] := by simpa [Strip.isMsgAttr] using h
+  unfold Strip.isFramework
+  rw [hp]
+  decide
 
 theorem msgAttrFwd_is_msgType : ∀ s, lookup msgAttrFwdParse s = lookup msgTypeNew s :=
   lookup_eq_of_rowsIn (by decide) (by decide)
